@@ -316,3 +316,84 @@ func H_C16_scope_other_types() {
 	vCheckAgainstRef("C16 scoped rule set vs look-alike types", err, r)
 	vReach("end")
 }
+
+// ---- round 4 ----
+
+// "the function given for this call": a second call resolves names from its own table only. Two consecutive
+// calls on one type; each gives f1 / phone per call or not (pool in LIFO mode: the second validator is the first
+// one's object again); the second call is compared with the reference built from its own arguments
+func vC16FnCall(i int, o *vOFn) {
+	is := vNum(i)
+	r := vNewRef()
+	r.local, r.global = map[string]bool{}, map[string]bool{}
+	r.localTag, r.globalTag = map[string]string{}, map[string]string{}
+	r.realBuiltin = map[string]string{VPhone: ExplainEn + " it is not phone"}
+	fns := Name2FnMap{}
+	if vndBool("localPhone" + is) {
+		fns[VPhone] = vURule("L-phone" + is)
+		r.local[VPhone], r.localTag[VPhone] = true, "L-phone"+is
+	}
+	if vndBool("localF1" + is) {
+		fns["f1"] = vURule("L-f1" + is)
+		r.local["f1"], r.localTag["f1"] = true, "L-f1"+is
+	}
+	vULog = nil
+	var err error
+	switch vndChoice("via"+is, 3) {
+	case 0:
+		vs := NewVStruct()
+		for _, k := range vSortedFnKeys(fns) {
+			vs.SetValidFn(k, fns[k])
+		}
+		err = vs.Valid(o)
+	case 1:
+		err = StructForFns(o, nil, fns)
+	case 2:
+		if fns["f1"] == nil {
+			err = StructForFns(o, nil, fns)
+		} else {
+			err = ValidStructForMyValidFn(o, "f1", fns["f1"])
+			delete(r.local, VPhone) // this entry point takes one function only
+		}
+	}
+	r.top(o)
+	vCheckAgainstRef("C16 fn, call "+is+" of a sequence", err, r)
+}
+
+func H_C16_fn_sequence() {
+	vUNoFail = true
+	vPoolMode("lifo")
+	vC16FnCall(0, &vOFn{P: "x", Q: "q", R: "y"})
+	vC16FnCall(1, &vOFn{P: "x", Q: vStr("Q"), R: "y"})
+	vReach("end")
+}
+
+// the same for rule sets: a rule set given to one call (unscoped and scoped) is gone in the next call
+func H_C16_rules_sequence() {
+	vUNoFail = true
+	vPoolMode("lifo")
+	known := vGlobalRules()
+	for i := 0; i < 2; i++ {
+		is := vNum(i)
+		o := &vOOuter{A: vStr("A" + is), B: "", In: vOIn{A: "a", B: vStr("In.B" + is)}, L: []vOIn{{A: "a", B: "b"}}, O: &vOOther{A: "a", C: "c"}}
+		vs := NewVStruct()
+		r := vNewRef()
+		r.global = known
+		r.scoped = map[reflect.Type]RM{}
+		if vndBool("unscoped" + is) {
+			rm := RM{"A": "r3", "B": "required"}
+			vs.SetRule(rm)
+			r.unscoped = rm
+		}
+		if vndBool("scoped" + is) {
+			rm := RM{"A": "r2,r3"}
+			vs.SetRule(rm, vOIn{})
+			r.scoped[reflect.TypeOf(vOIn{})] = rm
+		}
+		vULog = nil
+		err := vs.Valid(o)
+		r.top(o)
+		vCheckAgainstRef("C16 rule sets, call "+is+" of a sequence", err, r)
+	}
+	vReach("end")
+}
